@@ -495,6 +495,18 @@ for _name, _d, _alt in _ITMD:
                             idx, fully_expand=full)
                 _mk2(idx, full, tier, heavy)
 
+        # target names of a generation that has not been produced yet, given as a string
+        num = {"t1_2": ("j3a", "i3a3"), "t2_2": ("i3j3ab",), "p0_2_oo": ("i3j3",),
+               "p0_2_vv": ("a3b3",), "t1_3": ("i4a",)}.get(name, ())
+        for idx in num:
+            def _mk3(idx):
+                @tmpl(f"itmd.{name}.expand_itmd({idx},once)", "itmd", idx,
+                      cost=2 if name != "t1_3" else 4, tier="q" if name != "t1_3" else "t")
+                def _(w):
+                    from adcgen import Intermediates
+                    return Intermediates().available[name].expand_itmd(idx, fully_expand=False)
+            _mk3(idx)
+
         @tmpl(f"itmd.{name}.tensor({alt})", "itmd", alt)
         def _(w):
             from adcgen import Intermediates
@@ -556,6 +568,23 @@ def _(w):
 def _(w):
     from adcgen import wicks
     return wicks(imp(w, "opstring2").sympy, simplify_kronecker_deltas=True)
+
+
+# bare operator strings: general indices stay as targets of the result (Einstein convention,
+# no explicit target set); the literal text after the library's own renaming is compared
+TXT["opbare2"] = r"{a^\dagger_{p}} {a_{q}}"
+TXT["opbare4"] = r"{a_{p}} {a^\dagger_{q}} {a^\dagger_{r}} {a_{s}}"
+TXT["opbare_mixed"] = r"{a_{p}} {a^\dagger_{q}} {a^\dagger_{a}} {a_{i}}"
+for _k in ("opbare2", "opbare4", "opbare_mixed"):
+    for _d in (True, False):
+        def _mk(k, d):
+            @tmpl(f"expr.wicks({k},{'deltas' if d else 'nodeltas'},einstein)", "expr", None)
+            def _(w):
+                from adcgen import wicks, Expr
+                r = wicks(imp(w, k).sympy, simplify_kronecker_deltas=d)
+                e = r if hasattr(r, "substitute_contracted") else Expr(r)
+                return [str(r), str(e.substitute_contracted())]
+        _mk(_k, _d)
 
 
 @tmpl("expr.wicks(opgen)", "expr", "")
